@@ -55,14 +55,15 @@ var c20GeneratedKeys = [][2]string{
 }
 
 type c20Input struct {
-	Kind    string `json:"kind"` // roundtrip | corrupt | question
-	Priv    string `json:"priv,omitempty"`
-	Sealed  string `json:"sealed,omitempty"`
-	Answer  string `json:"answer"`
-	FM      string `json:"frontmatter,omitempty"`
-	MD      string `json:"md,omitempty"`
-	Sealing bool   `json:"sealing,omitempty"`
-	Want    bool   `json:"want_accept,omitempty"`
+	Kind    string   `json:"kind"` // roundtrip | corrupt | question
+	Priv    string   `json:"priv,omitempty"`
+	Sealed  string   `json:"sealed,omitempty"`
+	Answer  string   `json:"answer"`
+	FM      string   `json:"frontmatter,omitempty"`
+	MD      string   `json:"md,omitempty"`
+	Sealing bool     `json:"sealing,omitempty"`
+	Want    bool     `json:"want_accept,omitempty"`
+	Ops     []string `json:"ops,omitempty"`
 }
 
 func replayC20(sub string, in json.RawMessage) *fw.Violation {
@@ -80,6 +81,8 @@ func replayC20(sub string, in json.RawMessage) *fw.Violation {
 		return c20Question(d)
 	case "fm-roundtrip":
 		return c20FrontmatterRoundtrip(d)
+	case "fm-history":
+		return c20FrontmatterHistory(d)
 	}
 	return nil
 }
@@ -139,6 +142,29 @@ func runC20(w *fw.Worker) {
 			w.Count("frontmatter-roundtrips", 1)
 			return c20FrontmatterRoundtrip(d)
 		})
+	}
+	// (1c) histories on one front matter object: a rejected Seal / Unseal (malformed or non-matching key) leaves the object as it was,
+	// so the following call with the right key still works; all sequences of length <= 3 over {seal-bad, seal-good, unseal-wrong, unseal-right}
+	if w.Shard == 0 || w.NShards == 1 {
+		ops := []string{"seal-bad", "seal-good", "unseal-wrong", "unseal-right"}
+		var hist func(prefix []string)
+		hist = func(prefix []string) {
+			if len(prefix) > 0 {
+				d := c20Input{Kind: "fm-history", Answer: "a, c", Ops: append([]string(nil), prefix...)}
+				w.RunCase(fmt.Sprint("fmhist", prefix), func() *fw.Violation {
+					w.Nontrivial()
+					w.Count("frontmatter-histories", 1)
+					return c20FrontmatterHistory(d)
+				})
+			}
+			if len(prefix) == 3 {
+				return
+			}
+			for _, op := range ops {
+				hist(append(append([]string(nil), prefix...), op))
+			}
+		}
+		hist(nil)
 	}
 	// (2) corruptions
 	corruptAnswers := []string{"a", "a, c", "€ é", strings.Repeat("abcdefghij", 30)}
@@ -333,6 +359,70 @@ func runC20(w *fw.Worker) {
 			}
 		}
 	}
+}
+
+// c20FrontmatterHistory applies a sequence of Seal / Unseal calls, some of which must be rejected, to one front matter object and
+// follows it with a two-state reference model: {unsealed(answer), sealed}. A rejected call changes nothing.
+func c20FrontmatterHistory(d c20Input) *fw.Violation {
+	viol := func(sig, exp, obs string) *fw.Violation {
+		return &fw.Violation{Sub: "fm-history", Signature: sig, What: "a sequence of Seal / Unseal calls on one front matter object does not behave like the two-state model", Input: d, Expected: exp, Observed: obs}
+	}
+	fm := "type: question\ndifficulty: easy\nanswer-type: multiple-choice\nanswer: " + d.Answer + "\n"
+	md := "What does this program print?\n\n```evy\nprint \"x\"\n```\n\n- `x`\n- `y`\n- `x`\n"
+	m, err := learn.NewQuestionModel("course/unit/exercise/question1.md", learn.WithRawMD(fm, md), learn.WithPrivateKey(c20TestPriv))
+	if err != nil {
+		panic("C20: cannot build the carrier question: " + err.Error())
+	}
+	otherPriv := c20GeneratedKeys[0][1]
+	sealed := false
+	for i, op := range d.Ops {
+		var err error
+		wantErr := false
+		switch op {
+		case "seal-bad":
+			err = m.Frontmatter.Seal("not a key")
+			wantErr = !sealed // sealing a sealed answer is a no-op whatever the key
+		case "seal-good":
+			err = m.Frontmatter.Seal(c20TestPub)
+			if err == nil {
+				sealed = true
+			}
+		case "unseal-wrong":
+			err = m.Frontmatter.Unseal(otherPriv)
+			wantErr = sealed // unsealing an unsealed answer is a no-op
+		case "unseal-right":
+			err = m.Frontmatter.Unseal(c20TestPriv)
+			if err == nil {
+				sealed = false
+			}
+		}
+		step := fmt.Sprintf("step %d (%s)", i+1, op)
+		if wantErr && err == nil {
+			return viol("fm-history-accepts-bad-key", step+": rejected", "accepted")
+		}
+		if !wantErr && err != nil {
+			return viol("fm-history-call-failed", step+": succeeds", err.Error())
+		}
+		if m.IsSealed() != sealed {
+			return viol("fm-history-state", fmt.Sprint(step, ": sealed=", sealed), fmt.Sprint("sealed=", m.IsSealed(), " answer=", m.Frontmatter.Answer))
+		}
+		if !sealed && m.Frontmatter.Answer != d.Answer {
+			return viol("fm-history-answer-lost", step+": answer "+d.Answer, fmt.Sprintf("%q", m.Frontmatter.Answer))
+		}
+		if sealed && (m.Frontmatter.Answer != "" || m.Frontmatter.SealedAnswer == "") {
+			return viol("fm-history-state", step+": sealed-answer set, answer empty", fmt.Sprintf("answer=%q sealed=%q", m.Frontmatter.Answer, fw.Trunc(m.Frontmatter.SealedAnswer, 30)))
+		}
+	}
+	// whatever happened, the question still verifies (it is correctly marked)
+	if sealed {
+		if err := m.Frontmatter.Unseal(c20TestPriv); err != nil {
+			return viol("fm-history-final-unseal", "unseal with the right key succeeds", err.Error())
+		}
+	}
+	if err := m.Verify(); err != nil {
+		return viol("fm-history-verify", "the correctly marked question verifies", err.Error())
+	}
+	return nil
 }
 
 // c20FrontmatterRoundtrip seals and unseals the answer of a question model's front matter.
